@@ -16,7 +16,9 @@ func (i *Item) DedupeItems() error {
 			continue
 		}
 		if existing, ok := urls[node.url.String()]; ok {
-			if existing.status != ItemCompleted && !existing.IsSeed() && node.status == ItemCompleted { // Keep the completed item
+			// Keep the completed item, and never drop a node together with its subtree in
+			// favour of a childless duplicate: the URLs below it would be lost for good
+			if existing.status != ItemCompleted && !existing.IsSeed() && (node.status == ItemCompleted || (len(existing.children) == 0 && len(node.children) > 0)) {
 				existing.parent.RemoveChild(existing)
 				urls[node.url.String()] = node
 			} else {
